@@ -181,9 +181,16 @@ impl File {
                 .map(|(signals, _)| signals)
                 .map_err(|_| DigFileErrorKind::EmptyTest)?
             {
-                if let Some(stripped_name) = name.strip_suffix("_out") {
-                    let stripped_name = stripped_name.to_string();
-                    bidirectional.insert(stripped_name);
+                // `<name>_out` reads back the input `<name>`, unless a pin carries that very label
+                let read_back_input = name.strip_suffix("_out").filter(|stripped_name| {
+                    !signals.iter().any(|sig| sig.name == name)
+                        && signals.iter().any(|sig| {
+                            sig.name == *stripped_name
+                                && matches!(sig.typ, SignalType::Input { .. })
+                        })
+                });
+                if let Some(stripped_name) = read_back_input {
+                    bidirectional.insert(stripped_name.to_string());
                 } else {
                     test_signal_names.insert(name);
                 }
